@@ -50,7 +50,7 @@ theorem dotMulFirst_eq (a b : Nat → R) (K N r c kk : Nat) :
 theorem val_final (a b : Nat → R) (K N : Nat) (e : St) (hk : e.kk = K) (hs : e.style ≤ 2) :
     val a b K N e = dotSpec a b K N e.r e.c := by
   unfold val dotSpec
-  rcases e with ⟨r, c, kk, st⟩
+  rcases e with ⟨r, c, kk, st, k0⟩
   simp only at hk hs ⊢
   subst hk
   match st, hs with
